@@ -66,7 +66,10 @@ class MonEngine(Engine):
         old = self.__dict__.get('_gt')
         self.__dict__['_gt'] = v
         m = Mon.cur
-        if m is None or old is None:
+        if m is None:
+            return
+        if old is None:
+            m.eng = self        # first assignment happens inside the constructor
             return
         m.ev('set', old, v)
         m.sets_in_call += 1
@@ -115,13 +118,25 @@ class RecordingEmitter(Emitter):
             return
         if data['table'] == 'history':
             row = copy.deepcopy({k: v for k, v in data['data'].items() if k != 'time'})
-            m.ev('emit', 'history', data['data'].get('time'), row)
+            snap = None
+            if self.config.get('snapshot') and m.eng is not None:
+                snap = copy.deepcopy(plain_values(m.eng.state.get_value()))
+            m.ev('emit', 'history', data['data'].get('time'), row, snap)
         else:
             m.ev('emit', data['table'], None, None)
 
 
 if emitter_registry.access('vmon_rec') is None:
     emitter_registry.register('vmon_rec', RecordingEmitter)
+
+
+def plain_values(tree):
+    """Hierarchy values without the (process, topology) leaves."""
+    if isinstance(tree, dict):
+        return {k: plain_values(v) for k, v in tree.items()
+                if not (isinstance(v, tuple) and len(v) == 2 and isinstance(v[0], Process))
+                and not isinstance(v, Process)}
+    return tree
 
 
 def _ts_answer(spec, k, polls, states=None):
